@@ -27,6 +27,23 @@ def parseHeaderC16 (j : Json) : M (Header Rat) := do
     | .arr #[k, v] => pure ((← asStr k), (← asRat v))
     | _ => .error "expected [keyword, value]"
 
+def parseStepC16 (j : Json) : M (ThStep Rat) := do
+  match ← fStr j "act" with
+  | "set_T" => pure (.setTemp (← fRat j "tval") (← fRat j "tscale"))
+  | "set_fill" => pure (.setFill (← fRat j "fill"))
+  | "query" => pure .query
+  | a => .error s!"unknown step {a}"
+
+/-- optional "steps": the history run on the element after the first (fresh) query -/
+def parseStepsC16 (j : Json) : M (List (ThStep Rat)) :=
+  match fOpt j "steps" with
+  | none => pure []
+  | some v => do (← asArr v).mapM parseStepC16
+
+def jHistoryC16 (h : List (Rat × Rat × Except Err (List Rat))) : Json :=
+  Json.arr (h.map fun (t, f, s) => Json.mkObj [
+    ("temp", jRat t), ("fill", jRat f), ("sample", outcome jRats s)]).toArray
+
 def dispatchC16M (op : String) (j : Json) : M Json := do
   match op with
   | "bb" => do
@@ -44,10 +61,12 @@ def dispatchC16M (op : String) (j : Json) : M Json := do
       let C ← getField j "const" >>= parseConstC16
       let th := mkThermal (← fRat j "tval") (← fRat j "tscale") (← fRat j "fill") (← fRats j "pts") (← fRats j "vals")
       let w ← fRats j "w"
+      let steps ← parseStepsC16 j
       pure (Json.mkObj [
         ("temp", jRat th.temp), ("fill", jRat th.beamFill),
         ("emis", jRats (w.map th.emis.eval)),
-        ("sample", outcome jRats (thermalSourceSample C transcQ th w))])
+        ("sample", outcome jRats (thermalSourceSample C transcQ th w)),
+        ("history", jHistoryC16 (thermalHistory C transcQ w th steps))])
   | "thermal_file" => do
       -- ThermalSpectralElement.from_file(name, temperature_key, beamfill_key) and its thermal source
       let C ← getField j "const" >>= parseConstC16
@@ -55,9 +74,11 @@ def dispatchC16M (op : String) (j : Json) : M Json := do
       let r := thermalFromFile (← fBool j "is_fits") hdr (← fStr j "tkey") (← fStr j "bkey")
         (← fRats j "pts") (← fRats j "vals")
       let w ← fRats j "w"
+      let steps ← parseStepsC16 j
       pure (outcome (fun (th : Thermal Rat) => Json.mkObj [
         ("temp", jRat th.temp), ("fill", jRat th.beamFill),
-        ("sample", outcome jRats (thermalSourceSample C transcQ th w))]) r)
+        ("sample", outcome jRats (thermalSourceSample C transcQ th w)),
+        ("history", jHistoryC16 (thermalHistory C transcQ w th steps))]) r)
   | _ => .error s!"unknown op {op}"
 
 /-- ops of C16; `none`: not one of ours -/
